@@ -183,7 +183,10 @@ Proof.
     + left. simpl. eexists. split; [reflexivity|]. split.
       * repeat split; simpl; auto; simpl in H; lia.
       * intros z [Hz _] (i & Hi & _). simpl in Hz. lia.
-    + rewrite <- Ens. set (k := length ns'). cbn [length]. fold k.
+    + set (k := length ns').
+      change (match length (n0 :: ns') with O => [] | S m => repeat 0 m ++ [-1] end)
+        with (repeat 0 k ++ [-1]).
+      rewrite <- Ens.
       assert (Hlen : length (repeat 0 k ++ [-1]) = length ns).
       { rewrite app_length, repeat_length. subst ns. simpl. lia. }
       assert (Hm : length ns = S k) by (subst ns; reflexivity).
@@ -221,9 +224,10 @@ Proof.
                rewrite Nat.eqb_refl in Hmax. specialize (Hpos k). lia.
              - apply Hpost. lia. }
            split.
-           ++ repeat split; simpl; auto; try lia.
-              ** intros i Hi. rewrite Hst by auto. specialize (Hpos i Hi). lia.
-              ** rewrite Hm. reflexivity.
+           ++ split; [reflexivity|]. split.
+              ** split; [simpl; lia|]. intros i Hi. simpl. rewrite Hst by auto.
+                 specialize (Hpos i Hi). lia.
+              ** simpl. rewrite Hm. reflexivity.
            ++ apply lex_least. intros z i [Hzl Hz] Hi _. unfold product_value. simpl.
               rewrite Hst by lia. specialize (Hz i). lia.
 Qed.
